@@ -1031,7 +1031,7 @@ def run_e2e08(spec):
         sj = GaussProcPosteriorState(X, Y[:, [j]], mean, karg, noise_variance=noise)
         mj, vj = sj.predict(Xs)
         if not (np.allclose(np.asarray(mj).reshape(-1), means[:, j], rtol=max(1e-10, rel), atol=max(1e-12, rel) * ymag) and
-                np.allclose(np.asarray(vj), variances, rtol=1e-12, atol=1e-13 * max(1.0, float(np.abs(kd).max())))):  # (a variance
+                np.allclose(np.asarray(vj), variances, rtol=max(1e-12, rel), atol=max(1e-13, rel) * max(1.0, float(np.abs(kd).max())))):  # (a variance
             # near zero - test point on a training point - is a difference of numbers of the prior variance's magnitude)
             mon.append(F("c08:fantasy-columns-dependent", f"column {j} of the fantasy predictions differs from the single-target prediction", {"spec": spec}))
     # update = recompute
